@@ -44,7 +44,7 @@ fn main() {
                 rep.require_witness(w);
             }
             for cfg in c05::shared_configs(tier) {
-                let opts = Opts { max_depth: tier.pick(11, 14), time_cap: Duration::from_secs(tier.pick(30, 600)), ..Opts::default() };
+                let opts = Opts { max_depth: tier.pick(11, 16), time_cap: Duration::from_secs(tier.pick(30, 600)), ..Opts::default() };
                 let ex = svcx::explore(&cfg, &opts, &mut rep);
                 if tier == Tier::Thorough && cfg.callers == 2 {
                     svcx::validate_abstraction(&cfg, 6, &ex.fingerprints, ex.depth_completed, &mut rep);
